@@ -246,9 +246,34 @@ pub fn events_c12(ci: usize, case: &Value) -> Vec<Value> {
                             "same": items_of(&full.krate, &dn) == items_of(&other.krate, &dn)}));
         }
     };
+    // an unrelated module in the same run: 40 definitions that nothing refers to (named to sort around the others)
+    let mut with_pad = sources_for(&table, &order, split);
+    let pad_defs: Vec<String> = (0..40).map(|i| match i % 4 {
+        0 => format!("Aapad{i}x ::= INTEGER (0..{})", 10 + i),
+        1 => format!("Zzpad{i}x ::= SEQUENCE {{ a INTEGER (0..zzlim{i}) DEFAULT 4, b BOOLEAN OPTIONAL }}\nzzlim{i} INTEGER ::= 9"),
+        2 => format!("Mmpad{i}x ::= CHOICE {{ a NULL, b IA5String }}"),
+        _ => format!("aaval{i}x INTEGER ::= {i}"),
+    }).collect();
+    with_pad.push(format!("Padmod DEFINITIONS IMPLICIT TAGS ::= BEGIN\n{}\nEND\n", pad_defs.join("\n")));
+    let padded = compile_hooked(&if split { with_pad.clone() } else { vec![with_pad.join("\n")] });
+    // a module whose bindings are sensitive to the order in which its definitions are linked (a DEFAULT literal of a referenced
+    // type whose constraint holds a value reference; the referenced type sorting before and after its user): once with the
+    // module set alone, once with the unrelated module as well
+    let sens = "Sensmod DEFINITIONS AUTOMATIC TAGS ::= BEGIN\nsenslim INTEGER ::= 9\nAasensw ::= INTEGER (0..senslim)\nZzsensw ::= INTEGER (0..senslim)\nMmsens ::= SEQUENCE { a Aasensw DEFAULT 4, z Zzsensw DEFAULT 4, o Aasensw OPTIONAL }\nEND\n".to_string();
+    let mut s1 = sources_for(&table, &order, true);
+    s1.push(sens.clone());
+    let mut s2 = s1.clone();
+    s2.push(with_pad.last().unwrap().clone());
+    let (k1, k2) = (compile_hooked(&s1), compile_hooked(&s2));
+    for dn in ["Mmsens", "Aasensw", "Zzsensw"] {
+        evs.push(json!({"ev": "modcmp", "case": ci, "module": "Sensmod", "ctx": "compiled together with an unrelated module of 40 definitions", "def": dn,
+                        "enum_sensitive": false, "other_ok": k1.outcome.status == "ok" && k2.outcome.status == "ok",
+                        "same": items_of(&k1.krate, dn) == items_of(&k2.krate, dn)}));
+    }
     for m in &order {
         let name = table.rust_module_name(*m);
         compare(&mut evs, *m, &reversed, "modules handed over in reverse order".into());
+        compare(&mut evs, *m, &padded, "compiled together with an unrelated module of 40 definitions".into());
         let cl = closure_of(&table, *m);
         if cl.len() < nm {
             let sub = compile_hooked(&sources_for(&table, &cl, split));
